@@ -159,12 +159,19 @@ def run(ctx, res):
         t = body["blocks"]
         desc = "%s %s line %s" % (o.info.get("kind"), o.info.get("op"), o.info.get("line"))
         is_sum = False
-        for bl in body["blocks"]:
+        fbody = facts.bodies.get(o.info.get("fn"), body)
+        fg = cfgmod.Cfg(fbody)
+        for bl in fbody["blocks"]:
             tm = bl["term"]
             if tm["k"] == "assert" and tm["ln"] == o.info.get("line") and tm["msg"]["kind"] == "Overflow":
                 ops = tm["msg"]["ops"]
                 if ops and ops[0]["k"] in ("copy", "move") and any(pr.get("n") == "state_sum" for pr in ops[0]["p"]["p"]):
                     is_sum = True
+                # the 64-bit total, wherever the addition lives (helper functions included): an operand copied from the field state_sum
+                for op_ in ops or []:
+                    if op_["k"] in ("copy", "move") and fbody["locals"][op_["p"]["l"]].get("ty") is not None and (ip.int_info(fbody["locals"][op_["p"]["l"]]["ty"]) or (0,))[0] == 64:
+                        if any(r_[0] == "place" and r_[1].endswith(".state_sum") for r_ in fg.roots(op_)):
+                            is_sum = True
         if is_sum:
             res.ob(True)
             res.inventory.setdefault("allowlisted_sites", []).append("run: state_sum overflow (line %s)" % o.info.get("line"))
